@@ -312,3 +312,109 @@ func (in *Interp) hexDecodeSym(s Value) Value {
 	}
 	return tuple(Value{K: KSlice}, in.newErr("encoding/hex: invalid byte", Value{}))
 }
+
+// ---- sha3 / secretbox (ideal) and fmt.Sprintf (injective in its operands) ----
+
+var hashType = types.NewNamed(types.NewTypeName(token.NoPos, nil, "engineHash", nil), types.NewStruct(nil, nil), nil)
+
+type hashSt struct{ parts []interface{} }
+
+func (in *Interp) hashMethod(name string) Value {
+	return Value{K: KFunc, R: &Intrinsic{Name: "hash.Hash." + name, F: func(in *Interp, fr *Frame, a []Value) (Value, bool) {
+		h := a[0].R.(*hashSt)
+		switch name {
+		case "Write":
+			h.parts = append(h.parts, in.msgArg(a[1]))
+			n := 0
+			if a[1].R != nil {
+				n = len(a[1].R.(*SliceV).S)
+			}
+			return tuple(mkInt(uint64(n), 64), nilErr), true
+		case "Sum":
+			// collision-free digest: 32 cells, the i-th being byte i of digest(parts)
+			d := &OTerm{Ctor: "sha3-256", Args: append([]interface{}{}, h.parts...)}
+			var out []Value
+			if a[1].R != nil {
+				out = append(out, a[1].R.(*SliceV).S...)
+			}
+			for i := 0; i < 32; i++ {
+				out = append(out, Value{K: KOpaque, R: &OpaqueBytes{T: ot("byte", i, d)}})
+			}
+			return Value{K: KSlice, R: &SliceV{S: out}}, true
+		case "Reset":
+			h.parts = nil
+			return Value{}, true
+		case "Size":
+			return mkInt(32, 64), true
+		case "BlockSize":
+			return mkInt(136, 64), true
+		}
+		unsupported("hash method %s", name)
+		return Value{}, true
+	}}}
+}
+
+func arrayCells(p Value) []Value {
+	if p.R == nil {
+		return nil
+	}
+	return p.R.(*Value).R.([]Value)
+}
+
+func init() {
+	ix := map[string]ixFn{
+		"golang.org/x/crypto/sha3.New256": func(in *Interp, fr *Frame, a []Value) (Value, bool) {
+			return Value{K: KIface, R: &IfaceV{T: hashType, V: Value{K: KOpaque, R: &hashSt{}}}}, true
+		},
+		// secretbox.Seal(out, message, nonce *[24]byte, key *[32]byte) []byte : ideal authenticated encryption
+		"golang.org/x/crypto/nacl/secretbox.Seal": func(in *Interp, fr *Frame, a []Value) (Value, bool) {
+			key := Value{K: KSlice, R: &SliceV{S: arrayCells(a[3])}}
+			nonce := Value{K: KSlice, R: &SliceV{S: append([]Value{}, arrayCells(a[2])...)}}
+			return opqBytes(ot("seal", copySlice(key), nonce, in.msgArg(a[1]))), true
+		},
+		"golang.org/x/crypto/nacl/secretbox.Open": func(in *Interp, fr *Frame, a []Value) (Value, bool) {
+			t, ok := opaqueOfBytes(a[1])
+			if !ok || t.Ctor != "seal" {
+				return tuple(Value{K: KSlice}, mkBool(false)), true // not a box sealed by anyone: authentication fails
+			}
+			key := Value{K: KSlice, R: &SliceV{S: arrayCells(a[3])}}
+			nonce := Value{K: KSlice, R: &SliceV{S: arrayCells(a[2])}}
+			same := in.Ctx.And(in.bytesEqTerm(t.Args[0].(Value), key), in.bytesEqTerm(t.Args[1].(Value), nonce))
+			if in.Branch(same, "secretbox.Open key/nonce") {
+				return tuple(in.unmsg(t.Args[2]), mkBool(true)), true
+			}
+			return tuple(Value{K: KSlice}, mkBool(false)), true
+		},
+		"fmt.Sprintf": func(in *Interp, fr *Frame, a []Value) (Value, bool) {
+			args := []interface{}{concStrArg(a[0])}
+			if len(a) > 1 && a[1].R != nil {
+				for _, arg := range a[1].R.(*SliceV).S {
+					if arg.R == nil {
+						args = append(args, nil)
+						continue
+					}
+					iv := arg.R.(*IfaceV)
+					switch iv.V.K {
+					case KInt, KBool, KStr:
+						args = append(args, iv.V)
+					case KSlice:
+						args = append(args, in.msgArg(iv.V))
+					default:
+						args = append(args, "<"+iv.T.String()+">")
+					}
+				}
+			}
+			return opqStr(&OTerm{Ctor: "sprintf", Args: args}), true
+		},
+	}
+	for k, f := range ix {
+		intrinsics[k] = f
+	}
+}
+
+func copySlice(v Value) Value {
+	if v.R == nil {
+		return v
+	}
+	return Value{K: KSlice, R: &SliceV{S: append([]Value{}, v.R.(*SliceV).S...)}}
+}
